@@ -25,6 +25,15 @@ CHECKS = {
  "C11": ("exploration", "§9 C11",
    "Simulated composite syncs with hook status shapes (null, {}, nested, own observedGeneration, own conditions), parents edited / replaced under the same name / deleted mid-sync, and 404/409/500/connection-error/applied-response-lost faults on every request of a sync; per sync that reached child reconciliation: live GET then no write or a PUT on /status whose body is that GET's object with only .status = hook status + observedGeneration of the parent sent to the hook, 409 retried against a fresh read, never written to another UID, attempted although child writes failed, nothing outside .status changed.",
    "deterministic simulation with API fault injection, per-sync request-sequence oracle"),
+ "C07": ("exploration", "§9 C07",
+   "Simulated rollouts (RollingInPlace/RollingRecreate, 1-4 children, default and custom revision field paths, status checks on type/status/reason or type/reason only, hooks with and without their own Updated condition, template / non-revisioned edits and scaling mid-rollout, children deleted or turned unhealthy at any step, lagging caches); per completed sync, reconstructed from hook requests, the ControllerRevisions in the cache before and the accepted revision writes: at most one child needing a real change moves to the latest revision and it is the first such child in the hook's order; a move happens only if every child already on the latest revision was healthy in some cache view of that sync; children are written towards the desired state of the revision that claims them (old revisions: the hook answer for the patched parent); old-revision requests carry only the revisioned fields from the revision; the Updated condition says complete / progressing / waiting.",
+   "deterministic simulation, per-sync rollout reconstruction, cache-view-quantified oracle"),
+ "C08": ("exploration", "§9 C08",
+   "Bounded liveness under a fair environment (every child that is created or updated is reported healthy, no injected failure): after one or two template changes (with scale up/down or non-revisioned edits), under eager and shuffled schedules, the rollout must finish within a step budget, with every child containing the latest desired state, Updated=True, exactly one ControllerRevision left and a number of syncs linear in the number of children; safety half: no completed sync leaves a child waiting while every child on the latest revision was healthy in every cache view of that sync.",
+   "deterministic simulation, bounded-liveness oracle after a fair environment"),
+ "C09": ("fault_enumeration", "§9 C09",
+   "For each generated rollout scenario a fault-free reference run records the sequence of in-sync interactions; then one run per (position, kind) injects a crash before the request is applied, a crash after it is applied (response lost), each API error kind (404, 409, 410, 422, 500, connection error, applied-response-lost) or a crash during a hook call at exactly that position. Oracles: in every sync all ControllerRevision writes precede every child create/delete/content update and a failed one stops the sync; at every restart no child is listed in two revisions and none is ahead of the revision that records it; after recovery the rollout reaches the same final state as the uninterrupted run.",
+   "deterministic simulation, exhaustive single-fault / crash-point enumeration per scenario"),
 }
 
 NA = {
